@@ -94,6 +94,12 @@ var fieldBinds = map[string]fieldBind{
 	"saml2.AssertionInfo.SessionNotOnOrAfter":               {acc: "ai_session_not_on_or_after", set: "set_ai_session_not_on_or_after"},
 	"saml2.AssertionInfo.Assertions":                        {acc: "ai_assertions", set: "set_ai_assertions"},
 	"saml2.AssertionInfo.ResponseSignatureValidated":        {acc: "ai_response_signature_validated", set: "set_ai_response_signature_validated"},
+	"saml2.SAMLServiceProvider.spKeyStoreOverride":          {acc: "kc_enc_override"},
+	"saml2.SAMLServiceProvider.spSigningKeyStoreOverride":   {acc: "kc_sign_override"},
+	"saml2.SAMLServiceProvider.SPKeyStore":                  {acc: "kc_enc_field"},
+	"saml2.SAMLServiceProvider.SPSigningKeyStore":           {acc: "kc_sign_field"},
+	"saml2.KeyStore.Cert":                                   {acc: "ks_cert"},
+	"saml2.KeyStore.Signer":                                 {acc: "ks_signer"},
 	"saml2.ProxyRestriction.Count":                          {acc: "pr_count", set: "set_pr_count"},
 	"saml2.ProxyRestriction.Audience":                       {acc: "pr_audience", set: "set_pr_audience"},
 }
@@ -145,6 +151,29 @@ var errBinds = map[string]errBind{
 	"saml2.ErrInvalidValue":   {ctor: "EInvalidValue", args: []string{"Key", "Reason", "Expected", "Actual"}},
 	"saml2.ErrParsing":        {ctor: "EParsing", args: []string{"Tag", "Value"}, fixed: map[string]string{"Type": "time.RFC3339"}},
 	"saml2.ErrVerification":   {ctor: "EVerification", args: []string{"Cause"}},
+	"saml2.ErrSaml":           {ctor: "ESaml", args: []string{"Message"}},
+}
+
+// interface types: nil-able like pointers; the model type of the dynamic value
+var ifaceBinds = map[string]string{
+	"dsig.X509KeyStore": "store",
+	"crypto.Signer":     "signer",
+}
+
+// methods of interface values, bound to model functions: result = res (tuple of the non-error results)
+type methodBind struct {
+	fn      string
+	results []string // Go types of the non-error results
+}
+
+var methodBinds = map[string]methodBind{
+	"dsig.X509KeyStore.GetKeyPair": {fn: "get_key_pair", results: []string{"*rsa.PrivateKey", "[]byte"}},
+}
+
+// functions whose receiver is modelled by another record than Types.config (the key-selection part of the SP)
+var recvModel = map[string]string{
+	"getEncryptionCert": "keycfg", "GetEncryptionCertBytes": "keycfg", "getSigningCert": "keycfg",
+	"GetSigningCertBytes": "keycfg", "getSignerCert": "keycfg", "GetEncryptionKey": "keycfg", "GetSigningKey": "keycfg",
 }
 
 // functions translated, callees first
@@ -160,6 +189,13 @@ var funcList = []string{
 	"Values.Get",
 	"Values.GetSize",
 	"Values.GetAll",
+	"GetEncryptionKey",
+	"GetSigningKey",
+	"getEncryptionCert",
+	"GetEncryptionCertBytes",
+	"getSigningCert",
+	"GetSigningCertBytes",
+	"getSignerCert",
 }
 
 // ---------- translator ----------
@@ -275,7 +311,32 @@ func (x *xlat) declare(id *ast.Ident, typ string, valPtr bool) *varInfo {
 	return vi
 }
 
-func isPtr(t string) bool { return strings.HasPrefix(t, "*") }
+func isPtr(t string) bool { return strings.HasPrefix(t, "*") || ifaceBinds[t] != "" }
+
+// coqOf: the Coq type that represents values of a Go type
+func coqOf(t string) (string, bool) {
+	switch {
+	case t == "string" || t == "[]byte":
+		return "string", true
+	case t == "int":
+		return "Z", true
+	case t == "bool":
+		return "bool", true
+	case t == "[]string":
+		return "list string", true
+	case t == "*rsa.PrivateKey":
+		return "signer", true // only as a result of GetKeyPair, never nil beside a nil error
+	case ifaceBinds[t] != "":
+		return "option " + ifaceBinds[t], true
+	case strings.HasPrefix(t, "*") && typeBinds[t[1:]] != "":
+		return "option " + typeBinds[t[1:]], true
+	case typeBinds[t] != "":
+		return typeBinds[t], true
+	case mapBinds[t].coq != "":
+		return mapBinds[t].coq, true
+	}
+	return "", false
+}
 
 func tupleOf(vs []*varInfo) string {
 	switch len(vs) {
@@ -670,7 +731,13 @@ func (x *xlat) coerce(n ast.Node, v ex, to string) string {
 		if isPtr(to) || to == "error" {
 			return "None"
 		}
+		if strings.HasPrefix(to, "[]") {
+			return zeroOf(n, to) // a nil slice and an empty one are the same value in the model
+		}
 		unsup(n, "nil used as %s", to)
+	}
+	if to == "crypto.Signer" && v.typ == "*rsa.PrivateKey" {
+		return "(Some " + v.term + ")"
 	}
 	return v.term
 }
@@ -686,7 +753,7 @@ func (x *xlat) call(n *ast.CallExpr) ex {
 			if !strings.HasPrefix(a.typ, "[]") && a.typ != "string" {
 				unsup(n, "len of %s", a.typ)
 			}
-			if a.typ == "string" {
+			if a.typ == "string" || a.typ == "[]byte" {
 				return ex{pres: a.pres, term: "(Z.of_nat (String.length " + a.term + "))", typ: "int"}
 			}
 			return ex{pres: a.pres, term: "(Z.of_nat (List.length " + a.term + "))", typ: "int"}
@@ -722,7 +789,7 @@ func (x *xlat) call(n *ast.CallExpr) ex {
 						x.expr(a) // arguments must be in the subset, their values do not reach the model
 					}
 					x.externs[sel.Sel.Name] = true
-					return ex{term: eb.param, typ: "res:" + eb.kind}
+					return ex{term: eb.param, typ: "res:" + eb.kind + ",error"}
 				}
 				kind, ok := x.done[sel.Sel.Name]
 				if !ok {
@@ -955,7 +1022,7 @@ func (x *xlat) block(list []ast.Stmt, cur, out, loop []*varInfo, inLoop bool) st
 
 func zeroOf(n ast.Node, t string) string {
 	switch {
-	case t == "string":
+	case t == "string" || t == "[]byte":
 		return `""`
 	case t == "bool":
 		return "false"
@@ -998,6 +1065,40 @@ func (x *xlat) assign(n *ast.AssignStmt, cur []*varInfo, cont func([]*varInfo) s
 		vi := x.declare(id, typ, valPtr)
 		return vi, x.mutVars(c, id, vi)
 	}
+	// r1, .., err := X.M()   for a bound interface method
+	if len(n.Rhs) == 1 && len(n.Lhs) >= 2 {
+		if term, pres, mb := x.boundMethodCall(n.Rhs[0]); mb != nil {
+			if len(n.Lhs) != len(mb.results)+1 {
+				unsup(n, "assignment arity")
+			}
+			var pats []string
+			for i := range mb.results {
+				pats = append(pats, fmt.Sprintf("r%d", i))
+			}
+			r := x.freshName("r")
+			body := ""
+			c := cur
+			for i, l := range n.Lhs {
+				id, ok := l.(*ast.Ident)
+				if !ok {
+					unsup(n, "tuple assignment to non-identifiers")
+				}
+				if id.Name == "_" {
+					continue
+				}
+				if i == len(mb.results) {
+					var vi *varInfo
+					vi, c = bindIdent(id, "error", false, c)
+					body += fmt.Sprintf("let %s := (err_of_res %s) in ", vi.coq, r)
+					continue
+				}
+				var vi *varInfo
+				vi, c = bindIdent(id, mb.results[i], false, c)
+				body += fmt.Sprintf("let %s := match %s with Ok %s => r%d | Err _ => %s end in ", vi.coq, r, tupleTerm(pats), i, zeroOf(n, mb.results[i]))
+			}
+			return wrapPres(pres, fmt.Sprintf("let %s := %s in %s%s", r, term, body, cont(c)), "CPanic")
+		}
+	}
 	// a, err := time.Parse(time.RFC3339, s)  /  a, err := sp.method(...)
 	if len(n.Lhs) == 2 && len(n.Rhs) == 1 {
 		a, ok1 := n.Lhs[0].(*ast.Ident)
@@ -1035,12 +1136,12 @@ func (x *xlat) assign(n *ast.AssignStmt, cur []*varInfo, cont func([]*varInfo) s
 		if !strings.HasPrefix(r.typ, "res:") {
 			unsup(n, "tuple assignment from %s", exprString(call.Fun))
 		}
-		vt := strings.TrimPrefix(r.typ, "res:")
+		vt := strings.TrimSuffix(strings.TrimPrefix(r.typ, "res:"), ",error")
 		va, c1 := bindIdent(a, vt, false, cur)
 		vb, c2 := bindIdent(b, "error", false, c1)
 		val := "(ptr_of_res " + r.term + ")"
 		if !isPtr(vt) {
-			unsup(n, "tuple result of non-pointer type %s", vt)
+			val = "match " + r.term + " with Ok v => v | Err _ => " + zeroOf(n, vt) + " end"
 		}
 		return wrapPres(r.pres, fmt.Sprintf("let %s := %s in let %s := (err_of_res %s) in %s", va.coq, val, vb.coq, r.term, cont(c2)), "CPanic")
 	}
@@ -1136,48 +1237,108 @@ func (x *xlat) storeField(n ast.Node, vi *varInfo, st, field string, fb fieldBin
 	return wrapPres(pres, fmt.Sprintf("let %s := Some (%s %s %s) in %s", vi.coq, fb.set, term, p, cont(cur)), "CPanic")
 }
 
+// boundMethodCall recognises  X.M(args)  where X is an interface value with a bound method; returns the model term
+// (of type res (tuple)), the guards and the binding
+func (x *xlat) boundMethodCall(e ast.Expr) (string, []pre, *methodBind) {
+	call, ok := e.(*ast.CallExpr)
+	if !ok {
+		return "", nil, nil
+	}
+	sel, ok := call.Fun.(*ast.SelectorExpr)
+	if !ok {
+		return "", nil, nil
+	}
+	if id, ok := sel.X.(*ast.Ident); ok && id.Obj == nil {
+		return "", nil, nil // package-qualified function
+	}
+	var recv ex
+	func() {
+		defer func() {
+			if r := recover(); r != nil {
+				if _, ok := r.(unsupported); !ok {
+					panic(r)
+				}
+				recv = ex{typ: "?"}
+			}
+		}()
+		recv = x.expr(sel.X)
+	}()
+	mb, ok := methodBinds[recv.typ+"."+sel.Sel.Name]
+	if !ok || len(call.Args) != 0 {
+		return "", nil, nil
+	}
+	p := x.freshName("p")
+	pres := append(append([]pre{}, recv.pres...), pre{"opt", p, recv.term})
+	return "(" + mb.fn + " " + p + ")", pres, &mb
+}
+
+func tupleTerm(parts []string) string {
+	switch len(parts) {
+	case 0:
+		return "tt"
+	case 1:
+		return parts[0]
+	}
+	return "(" + strings.Join(parts, ", ") + ")"
+}
+
 func (x *xlat) ret(n *ast.ReturnStmt) string {
+	hasErr := len(x.results) > 0 && x.results[len(x.results)-1] == "error"
+	vals := x.results
+	if hasErr {
+		vals = x.results[:len(x.results)-1]
+	}
+	// return f(...) forwarding all results
+	if len(n.Results) == 1 && len(x.results) > 1 {
+		if term, pres, mb := x.boundMethodCall(n.Results[0]); mb != nil {
+			if !hasErr || len(mb.results) != len(vals) {
+				unsup(n, "forwarding results of a different shape")
+			}
+			var pats, outs []string
+			for i, rt := range mb.results {
+				v := fmt.Sprintf("r%d", i)
+				pats = append(pats, v)
+				outs = append(outs, x.coerce(n, ex{term: v, typ: rt}, vals[i]))
+			}
+			return wrapPres(pres, fmt.Sprintf("CRet (match %s with Ok %s => Ok %s | Err e => Err e end)", term, tupleTerm(pats), tupleTerm(outs)), "CPanic")
+		}
+		r := x.expr(n.Results[0])
+		if r.typ == "res:"+strings.Join(x.results, ",") {
+			return wrapPres(r.pres, "CRet "+r.term, "CPanic")
+		}
+		unsup(n, "forwarding the results of %s", exprString(n.Results[0]))
+	}
 	if len(n.Results) != len(x.results) {
 		unsup(n, "return arity")
 	}
-	errTerm := func(e ex) string {
-		if e.typ == "nil" {
-			return ""
+	var pres []pre
+	var parts []string
+	for i, vt := range vals {
+		v := x.expr(n.Results[i])
+		pres = append(pres, v.pres...)
+		parts = append(parts, x.coerce(n, v, vt))
+	}
+	if !hasErr {
+		return wrapPres(pres, "CRet "+tupleTerm(parts), "CPanic")
+	}
+	e := x.expr(n.Results[len(n.Results)-1])
+	ok := "CRet (Ok " + tupleTerm(parts) + ")"
+	switch {
+	case e.typ == "nil":
+		return wrapPres(pres, ok, "CPanic")
+	case e.typ != "error":
+		unsup(n, "returning %s as error", e.typ)
+	case strings.HasPrefix(e.term, "(Some ") && strings.HasSuffix(e.term, ")"):
+		// the values beside a non-nil error are dropped by [res]: they must be nil / zero literals
+		for i := range vals {
+			if v := x.expr(n.Results[i]); v.typ != "nil" && v.term != zeroOf(n, vals[i]) {
+				unsup(n, "returning a value beside an error")
+			}
 		}
-		if e.typ != "error" {
-			unsup(n, "returning %s as error", e.typ)
-		}
-		return e.term
+		return wrapPres(e.pres, "CRet (Err "+e.term[6:len(e.term)-1]+")", "CPanic")
 	}
-	if len(x.results) == 1 && x.results[0] != "error" {
-		e := x.expr(n.Results[0])
-		return wrapPres(e.pres, "CRet "+x.coerce(n, e, x.results[0]), "CPanic")
-	}
-	if len(x.results) == 1 {
-		e := x.expr(n.Results[0])
-		t := errTerm(e)
-		switch {
-		case t == "":
-			return "CRet (Ok tt)"
-		case strings.HasPrefix(t, "(Some ") && strings.HasSuffix(t, ")"):
-			return wrapPres(e.pres, "CRet (Err "+t[6:len(t)-1]+")", "CPanic")
-		}
-		return wrapPres(e.pres, "CRet (res_of_err "+t+")", "CPanic")
-	}
-	v := x.expr(n.Results[0])
-	e := x.expr(n.Results[1])
-	t := errTerm(e)
-	if t == "" {
-		return wrapPres(append(append([]pre{}, v.pres...), e.pres...), "CRet (Ok "+x.coerce(n, v, x.results[0])+")", "CPanic")
-	}
-	if v.typ != "nil" {
-		unsup(n, "returning a value beside an error")
-	}
-	if strings.HasPrefix(t, "(Some ") && strings.HasSuffix(t, ")") {
-		return wrapPres(e.pres, "CRet (Err "+t[6:len(t)-1]+")", "CPanic")
-	}
-	// return nil, err with err possibly nil: (nil, nil)
-	return wrapPres(e.pres, "match "+t+" with Some e => CRet (Err e) | None => CRet (Ok "+zeroOf(n, x.results[0])+") end", "CPanic")
+	// error held in a variable: the values beside a non-nil error are dropped by [res] (callers test the error first)
+	return wrapPres(append(pres, e.pres...), "match "+e.term+" with Some e => CRet (Err e) | None => "+ok+" end", "CPanic")
 }
 
 // ---------- functions ----------
@@ -1216,7 +1377,9 @@ func (x *xlat) function(out *bytes.Buffer, name string) {
 			var ct string
 			valPtr := false
 			switch {
-			case isPtr(gt) && typeBinds[gt[1:]] != "":
+			case len(params) == 0 && recvModel[name] != "":
+				ct, valPtr = recvModel[name], true
+			case strings.HasPrefix(gt, "*") && typeBinds[gt[1:]] != "":
 				ct, valPtr = typeBinds[gt[1:]], true // non-nil by precondition
 			case gt == "string":
 				ct = "string"
@@ -1255,21 +1418,30 @@ func (x *xlat) function(out *bytes.Buffer, name string) {
 			}
 		}
 		var rt string
-		plain := map[string]string{"string": "string", "int": "Z", "bool": "bool", "[]string": "list string"}
-		switch {
-		case len(x.results) == 1 && x.results[0] == "error":
-			rt, kind = "res unit", "error"
-		case len(x.results) == 1 && plain[x.results[0]] != "":
-			rt, kind = plain[x.results[0]], x.results[0]
-		case len(x.results) == 2 && x.results[1] == "error":
-			ct, ok := typeBinds[strings.TrimPrefix(x.results[0], "*")]
+		hasErr := len(x.results) > 0 && x.results[len(x.results)-1] == "error"
+		vals := x.results
+		if hasErr {
+			vals = x.results[:len(x.results)-1]
+		}
+		var vcoq []string
+		for _, v := range vals {
+			c, ok := coqOf(v)
 			if !ok {
-				unsup(fd, "result type %s", x.results[0])
+				unsup(fd, "result type %s", v)
 			}
-			if isPtr(x.results[0]) {
-				ct = "option " + ct // (nil, nil) is a possible result of a Go function
-			}
-			rt, kind = "res ("+ct+")", x.results[0]
+			vcoq = append(vcoq, c)
+		}
+		vt := "unit"
+		if len(vcoq) > 0 {
+			vt = strings.Join(vcoq, " * ")
+		}
+		switch {
+		case hasErr && len(vals) == 0:
+			rt, kind = "res unit", "error"
+		case hasErr:
+			rt, kind = "res ("+vt+")", strings.Join(x.results, ",")
+		case len(vals) == 1:
+			rt, kind = vt, x.results[0]
 		default:
 			unsup(fd, "result signature")
 		}
@@ -1326,7 +1498,7 @@ func emitFuncs(root, types *pkgFiles, env, tenv constEnv) []byte {
 	var out bytes.Buffer
 	out.WriteString("(* GenFuncs.v — GENERATED by /verif/gen (funcs.go) from the function bodies of /repo's working tree on every run.\n")
 	out.WriteString("   Do not edit.  Target combinators: GenPrelude.v. *)\n")
-	out.WriteString("From V Require Import Base Time Types Generated Profile GenPrelude.\n\n")
+	out.WriteString("From V Require Import Base Time Types Generated Profile Keys GenPrelude.\n\n")
 	names := append([]string{}, funcList...)
 	_ = sort.Strings
 	for _, n := range names {
